@@ -6,6 +6,7 @@
 import MiVerif.Lemmas.C20Opt
 import MiVerif.Lemmas.C20Printf
 import MiVerif.Gen.Formats
+import MiVerif.Lemmas.StrLoops
 
 namespace C20
 open OptM PfM C20L
@@ -99,6 +100,34 @@ theorem strlcpy_in_bounds (src : List Char) (n : Nat) :
     rcases hp with ⟨i, hi, rfl⟩ | rfl
     · simp only; omega
     · simp only; omega
+
+/-- the same for **`_mi_strlcpy` as regenerated from src/libc.c** (the `while (*src != 0 && dest_size > 1) *dest++ = *src++` loop as
+    `whileN`; loads through the oracle `ld8`, so for every content of memory and every source string, terminated or not): every store
+    is a byte store inside `[dest, dest + dest_size)` and the last store is the terminating NUL -/
+theorem generated_strlcpy_in_bounds (ld8 : Nat → Nat) (dest src dest_size : Nat) (hd : dest ≠ 0) (hs : src ≠ 0) (hn : 0 < dest_size)
+    (hfit : dest + dest_size < 2^64) :
+    (∀ c ∈ GenL._mi_strlcpy ld8 dest src dest_size, ∃ a v, c = ("store8", [a, v]) ∧ dest ≤ a ∧ a < dest + dest_size) ∧
+    ∃ pre a, GenL._mi_strlcpy ld8 dest src dest_size = pre ++ [("store8", [a, 0])] :=
+  StrL.strlcpy_in_bounds ld8 dest src dest_size hd hs hn (StrL.lt_M_of _ hfit)
+
+/-- **`_mi_strlcat` as regenerated**: whatever is in the destination (terminated or not), it skips at most `dest_size - 1` bytes and
+    copies into the rest: every store is inside `[dest, dest + dest_size)` and the last one is the terminating NUL -/
+theorem generated_strlcat_in_bounds (ld8 : Nat → Nat) (dest src dest_size : Nat) (hd : dest ≠ 0) (hs : src ≠ 0) (hn : 0 < dest_size)
+    (hfit : dest + dest_size < 2^64) :
+    (∀ c ∈ GenL._mi_strlcat ld8 dest src dest_size, ∃ a v, c = ("store8", [a, v]) ∧ dest ≤ a ∧ a < dest + dest_size) ∧
+    ∃ pre a, GenL._mi_strlcat ld8 dest src dest_size = pre ++ [("store8", [a, 0])] :=
+  StrL.strlcat_in_bounds ld8 dest src dest_size hd hs hn (StrL.lt_M_of _ hfit)
+
+/-- NULL arguments and an empty destination: nothing is stored -/
+theorem generated_strlcpy_null (ld8 : Nat → Nat) (dest src dest_size : Nat) (h : dest = 0 ∨ src = 0 ∨ dest_size = 0) :
+    GenL._mi_strlcpy ld8 dest src dest_size = [] ∧ GenL._mi_strlcat ld8 dest src dest_size = [] := by
+  have hc : ((dest = 0) ∨ (src = 0)) ∨ (dest_size = 0) := by omega
+  unfold GenL._mi_strlcpy GenL._mi_strlcat
+  simp only [if_pos hc, and_self]
+
+/-- **`_mi_strnlen` as regenerated** never reports more than `max_len` -/
+theorem generated_strnlen_le (ld8 : Nat → Nat) (s max_len : Nat) (hm : max_len < 2^64) : GenL._mi_strnlen ld8 s max_len ≤ max_len :=
+  StrL.strnlen_le ld8 s max_len (StrL.lt_M_of _ hm)
 
 /-- `_mi_strlcat` stores only below `n`, whatever the current contents of the destination -/
 theorem strlcat_in_bounds (dlen : Nat) (src : List Char) (n : Nat) : ∀ p ∈ strlcat dlen src n, p.1 < n := by
